@@ -28,13 +28,23 @@
 //!       `TypeClassification::from_byte` (redb-3.0.0/src/types.rs, `unreachable!()`) AND the image
 //!       provably contains a type name with classification byte 4 (written by the working tree
 //!       for Option/array/tuple types).  Nothing else gets this prefix.
+//!   `compatx:reader=3.0.0:check_integrity:Ok(false)-on-consistent-file:witness=<w>` — redb 3.0.0
+//!       answers Ok(false) ("failed but repaired") for a cleanly closed file although every stage
+//!       of the contents is identical AND a second witness finds the allocator state consistent
+//!       (w = independent-decoder: exact comparison of the allocator snapshot with the reachable
+//!       pages; w = working-tree-check only for tuple/Option-key profiles the decoder cannot
+//!       order).  redb 3.0.0 compares a hash of its in-memory buddy allocators that depends on
+//!       how they were resized, and answers the same for its OWN files after compact(); the
+//!       working tree trims the file on a clean close, so it triggers this far more often.
 //!   `compatx:reader=<version>:<stage>:<what>:...`                   — any other disagreement.
 //!   `compatx:decoder:...`, `compatx:writer=...`                     — decoder / writer failures.
+//! redb 3.0.0 reading a file written ONLY by redb 3.0.0 is outside the property: it is executed
+//! as a baseline and its anomalies are reported in the coverage, not as violations.
 
-use crate::backend::MemBackend;
-use crate::decode;
-use crate::par;
-use crate::report::{panic_key, Report};
+use vh::backend::MemBackend;
+use vh::decode;
+use vh::par;
+use vh::report::{panic_key, Report};
 use serde_json::{json, Value as J};
 use std::collections::{BTreeMap, BTreeSet};
 
@@ -1162,7 +1172,6 @@ pub struct Features {
     pub shortened_separators: u32,
     pub multimap_subtrees: u32,
     pub max_height: u32,
-    pub class4_names: Vec<String>,
 }
 
 fn rd_u16(m: &[u8], o: usize) -> Option<usize> {
@@ -1461,7 +1470,6 @@ fn judge(
             None
         }
     };
-    let before_contents = 0usize;
     let mut content_violations = 0usize;
     for (stage, want) in reference {
         *evaluations += 1;
@@ -1487,7 +1495,6 @@ fn judge(
         push(stage, what, detail, g, None);
         content_violations += 1;
     }
-    let _ = before_contents;
     if let Some(o) = integrity_problem {
         // Class "Ok(false) on a consistent file": redb 3.0.0 reports "failed but repaired" although
         // every stage of the contents is identical and a second witness (the independent decoder's
@@ -1791,7 +1798,6 @@ pub fn run(tier: &str) -> i32 {
     let mut samples: Vec<J> = vec![];
     let mut blocked = 0u64;
     let mut baseline_hist: BTreeMap<String, u64> = BTreeMap::new();
-    let mut nontrivial_sample_done = false;
     for (c, r) in cs.iter().zip(results) {
         images.extend(r.image_hashes.iter());
         nontrivial.extend(r.nontrivial_hashes.iter());
@@ -1832,7 +1838,7 @@ pub fn run(tier: &str) -> i32 {
                 samples.push(s);
             }
         }
-        let _ = (&mut nontrivial_sample_done, c);
+        let _ = c;
         let mut seen_here: BTreeSet<String> = BTreeSet::new();
         for v in r.viols {
             *viol_hist.entry(v.key.clone()).or_insert(0) += 1;
